@@ -26,7 +26,7 @@ def new_spec():
 
 def gen_repo(rng, n_targets=(3, 12), n_pkgs=(1, 4), allow_dir=True, allow_filegroup=True, allow_text=True,
              dep_density=0.5, use_defs_p=0.3, max_fanin=6, binary_p=0.1, env_p=0.0, multi_out_p=0.25,
-             require_provide_p=0.0, test_p=0.0, deps_attr_p=0.15):
+             require_provide_p=0.0, test_p=0.0, deps_attr_p=0.15, subdir_out_p=0.0, dir_p=0.15):
     spec = new_spec()
     npk = rng.rng(*n_pkgs)
     pkgs = rng.sample(PKG_POOL, npk)
@@ -89,13 +89,14 @@ def gen_repo(rng, n_targets=(3, 12), n_pkgs=(1, 4), allow_dir=True, allow_filegr
                     (dp, dt) = rng.choice(all_t)
                     t["srcs"].append("t:" + label(dp, dt["name"]))
             else:
-                if allow_dir and rng.chance(0.15):
+                if allow_dir and rng.chance(dir_p):
                     t["dir"] = gen_layout(rng, name)
                     t["outs"] = [name + "_d"]
                 else:
-                    t["outs"] = [name + ".out"]
+                    sub = "sub/" if rng.chance(subdir_out_p) else ""
+                    t["outs"] = [sub + name + ".out"]
                     if rng.chance(multi_out_p):
-                        t["outs"].append(name + ".o2")
+                        t["outs"].append(sub + name + ".o2")
                 if rng.chance(binary_p):
                     t["binary"] = True
                 if rng.chance(env_p):
@@ -144,8 +145,11 @@ def gen_layout(rng, name):
 # ------------------------------------------------------------------------------------------------
 # Materialisation
 
+# names, kinds and contents of all inputs. Mode bits of inputs are deliberately NOT written into the
+# output: a stale executable bit (known finding C01-exec-bit-not-hashed) must stay a mode-bit
+# difference and not be amplified into content differences further down the graph.
 DUMP = ('for s in $SRCS; do find -L "$s" | LC_ALL=C sort | while read p; do if [ -d "$p" ]; then echo "D $p"; '
-        'else if [ -x "$p" ]; then echo "F $p x"; else echo "F $p"; fi; cat "$p" 2>/dev/null || echo "!dangling"; fi; done; done')
+        'else echo "F $p"; cat "$p" 2>/dev/null || echo "!dangling"; fi; done; done')
 
 
 def gen_cmd(pkg, t, log):
